@@ -39,6 +39,7 @@ VARIABLES
     run,    \* current run
     c04,    \* the run is a C04 workload run (envelope applies)
     real,   \* the run used the real OS (nothing is known about mapped)
+    exact,  \* the run repeats a periodic workload: MarksSteady applies
     bad,    \* violations: sequence of [run, line, inv]
     nbad,   \* violating steps in the current run
     seen,   \* invariants already reported in the current run
@@ -46,10 +47,10 @@ VARIABLES
     hknown, \* a layout was reported in this run
     drift,  \* model drift: sequence of [run, line, what]
     done
-tvars == <<i, run, c04, real, bad, nbad, seen, heap, hknown, drift, done>>
+tvars == <<i, run, c04, real, exact, bad, nbad, seen, heap, hknown, drift, done>>
 
 Names == {"Aligned", "Disjoint", "Accessible", "Intact", "NullJustified", "OomClean", "Returns",
-          "ReleaseOnce", "NoGratuitousMap", "SteadyState", "Envelope"}
+          "ReleaseOnce", "NoGratuitousMap", "SteadyState", "MarksSteady", "Envelope"}
 
 AtEnd == obs.ev = "end"
 Holds(n) ==
@@ -63,6 +64,7 @@ Holds(n) ==
       [] n = "ReleaseOnce"     -> ReleaseOnce
       [] n = "NoGratuitousMap" -> NoGratuitousMap
       [] n = "SteadyState"     -> SteadyStateStep /\ (AtEnd => SteadyState)
+      [] n = "MarksSteady"     -> exact => (MarksSteadyStep /\ (AtEnd => MarksSteady))
       [] n = "Envelope"        -> c04 => Envelope
 Violated == {n \in Names : ~Holds(n)}
 
@@ -92,7 +94,7 @@ Apply(e) ==
 
 TInit ==
     /\ Init
-    /\ i = 0 /\ run = 0 /\ c04 = FALSE /\ real = FALSE /\ bad = <<>> /\ nbad = 0 /\ seen = {} /\ done = FALSE
+    /\ i = 0 /\ run = 0 /\ c04 = FALSE /\ real = FALSE /\ exact = FALSE /\ bad = <<>> /\ nbad = 0 /\ seen = {} /\ done = FALSE
     /\ heap = <<>> /\ hknown = FALSE /\ drift = <<>>
 
 \* model drift observed at this event (evaluated on the state BEFORE the event is applied:
@@ -114,6 +116,7 @@ Step ==
         /\ run' = IF e.ev = "reset" THEN e.run ELSE run
         /\ c04' = IF e.ev = "reset" THEN e.c04 ELSE c04
         /\ real' = IF e.ev = "reset" THEN e.real ELSE real
+        /\ exact' = IF e.ev = "reset" THEN ("exact" \in DOMAIN e /\ e.exact) ELSE exact
         /\ heap' = IF e.ev = "reset" THEN <<>> ELSE IF e.ev = "heap" THEN e.segs ELSE heap
         /\ hknown' = IF e.ev = "reset" THEN FALSE ELSE IF e.ev = "heap" THEN TRUE ELSE hknown
         /\ LET d == DriftAt(e) IN
@@ -134,7 +137,7 @@ Finish ==
     /\ i = NRec /\ ~done
     /\ done' = TRUE
     /\ PrintT(<<"VERDICT", ToJson([n |-> NRec, runs |-> run, bad |-> bad, drift |-> drift])>>)
-    /\ UNCHANGED <<vars, i, run, c04, real, bad, nbad, seen, heap, hknown, drift>>
+    /\ UNCHANGED <<vars, i, run, c04, real, exact, bad, nbad, seen, heap, hknown, drift>>
 
 TNext == Step \/ Finish
 =============================================================================
